@@ -19,7 +19,7 @@ for i in sorted(notes):
         b = blind.setdefault(n["round"], [0, 0])
         b[1] += 1
         b[0] += n["blind"] == "caught"
-    conf = "" if m.get("confirmed") else " (NOT confirmed)"
+    conf = "" if (m.get("confirmed") or n.get("confirmed_by_hand")) else " (NOT confirmed)"
     rows.append(f"| {i} | {n['round']} | {n['what']}{conf} | {det} | {n.get('remark', '')} |")
 print("| change | round | what it is | caught by (`./check <P> quick`, exit 1 + VIOLATION) | strengthening / remark |")
 print("| --- | --- | --- | --- | --- |")
